@@ -263,6 +263,7 @@ func KitchenSink(variant int) *Schema {
 		"imm":      {Type: scalar(bt("string")), Immutable: true},
 		"child":    col(optional(ref("Child", "strong"))),
 		"children": col(setOf(ref("Child", "strong"), 0, -1)),
+		"kids":     col(setOf(ref("Child", "strong"), 0, 3)), // bounded set of references
 		"cmap":     col(mapOf(bt("string"), ref("Child", "strong"))),
 		"wpeer":    col(optional(ref("Root", "weak"))),
 		"witems":   col(setOf(ref("Item", "weak"), 0, -1)),
